@@ -306,6 +306,29 @@ func (w *World) RemoteConfig(st *env.Store, withCache bool) *mast.RemoteConfig {
 			return json.Marshal(v)
 		}
 	}
+	if cfg.AltKeyMarshal {
+		inner := rc.Marshal
+		rc.Marshal = func(v interface{}) ([]byte, error) {
+			if k, ok := v.(SKey); ok {
+				if err := w.Msh.Tick(); err != nil {
+					return nil, err
+				}
+				return AltKeyBytes(k), nil
+			}
+			return inner(v)
+		}
+		rc.Unmarshal = func(b []byte, v interface{}) error {
+			if kp, ok := v.(*SKey); ok {
+				k, err := AltKeyParse(b)
+				if err != nil {
+					return err
+				}
+				*kp = k
+				return nil
+			}
+			return json.Unmarshal(b, v)
+		}
+	}
 	if cfg.RegisteredTypes {
 		rc.UnmarshalerUsesRegisteredTypes = true
 	}
